@@ -93,12 +93,39 @@ def run(tier):
                         note(asmcheck.klass('cand:S2-%s:value-differs-from-reference-assembler' % kind, x), c, 'candidate %s of %r is %r; GNU as encodes the line as %s = %r' % (c, text, rf[1], g[1], g[2]))
                 elif re.search(r'shortened|out of range|overflow|too large|does not fit', g[1]):
                     note(asmcheck.klass('cand:S2-%s:value-does-not-fit' % kind, x), c, 'candidate %s = %r returned for %r although the value %d does not fit the form (GNU as: %s)' % (c, rf[1], text, v, g[1][:100]))
-    chk.cov['evaluations'] = len(lines) + ncand; chk.cov['lines'] = len(lines); chk.cov['accepted_lines'] = nacc; chk.cov['candidates_checked'] = ncand; chk.cov['distinct_candidates'] = len(cset)
+    # S3: relative branches with a numeric operand — the number is the displacement; every candidate's displacement, read by the reference
+    # decoder from the candidate's own bytes, must be the written number modulo 2^32 (2^16 under the 66 prefix)
+    JCC = ['jo', 'jno', 'jb', 'jae', 'je', 'jne', 'jbe', 'ja', 'js', 'jns', 'jp', 'jnp', 'jl', 'jge', 'jle', 'jg']
+    br_lines = [('i', '%s %d' % (mn, v)) for mn in ['jmp', 'call', 'loop', 'loope', 'loopne', 'jecxz'] + JCC for v in asmcheck.BOUNDARY]
+    br_res = ctx.asm(br_lines)
+    br_c = sorted(set(c for r in br_res if not isinstance(r, tuple) for c in r))
+    br_slot = {c: k for k, c in enumerate(br_c)}
+    br_ref = ctx.objdump(br_c) if br_c else []
+    nbr = 0
+    for (syn, text), r in zip(br_lines, br_res):
+        if isinstance(r, tuple) or not r: continue
+        mn, v = text.split(); v = int(v)
+        for c in r:
+            nbr += 1
+            rf = br_ref[br_slot[c]]
+            key = 'cand:S3-rel:%s' % ('jcc' if mn in JCC else mn)
+            if rf is None or '(bad)' in rf[1] or rf[0] != len(c) // 2:
+                note(key + ':not-one-instruction', c, 'candidate %s of %r: the reference decoder reads %s' % (c, text, rf)); continue
+            m = re.search(r'0x([0-9a-f]+)\s*$', rf[1]) or re.search(r'\b([0-9a-f]+)\s*(<[^>]*>)?\s*$', rf[1])
+            if not m:
+                note(key + ':no-target', c, 'candidate %s of %r decodes as %r: no branch target' % (c, text, rf[1])); continue
+            target = int(m.group(1), 16); addr = br_slot[c] * objref.SLOT
+            mod = 1 << 16 if c.startswith('66') else 1 << 32
+            rel = (target - (addr + rf[0])) % mod
+            if rel != v % mod:
+                note(key + ':displacement', c, 'candidate %s of %r is %r at 0x%x for the reference decoder: displacement %d (mod 2^%d), the line says %d' % (c, text, rf[1], addr, rel if rel < mod // 2 else rel - mod, mod.bit_length() - 1, v))
+    chk.cov['relative_branch_candidates'] = nbr
+    chk.cov['evaluations'] = len(lines) + ncand + nbr; chk.cov['lines'] = len(lines); chk.cov['accepted_lines'] = nacc; chk.cov['candidates_checked'] = ncand; chk.cov['distinct_candidates'] = len(cset)
     chk.cov['distinct_nontrivial'] = nacc; chk.cov['traces_validated_against_impl'] = len(lines)
     chk.cov['codec_correspondence_cases'] = ntie
     asmcheck.report(chk, bad)
     chk.cov['rule'] = ('S1: Intel and AT&T renderings of the usable base strings (see C03); S2: one base string per (mnemonic, feature) class with its immediate / displacement replaced by '
-                       '-129,-128,-1,0,1,127,128,255,256,32767,32768,65535,2^31-1,2^31,2^32-1. Every candidate of every accepted line is decoded by GNU objdump: one instruction of the full length, '
+                       '-129,-128,-1,0,1,127,128,255,256,32767,32768,65535,2^31-1,2^31,2^32-1; S3: jmp / call / jcc / loop* / jecxz with those numbers as displacement — the displacement the reference decoder reads from each candidate must be the written number modulo 2^32. Every candidate of every accepted line is decoded by GNU objdump: one instruction of the full length, '
                        'same mnemonic/operands/sizes as the line (normalised text comparison of C01), and for S2 GNU as is the oracle of the written value: a line it rejects or warns on as shortened / out of range must have no candidates, otherwise every candidate must decode to the text its encoding decodes to. Non-trivial = accepted line')
     chk.cov['samples'] = [dict(line=t, syntax=s) for s, t, _, _, _ in lines[::max(1, len(lines) // 5)][:5]]
     return chk.finish(assumptions=['GNU objdump 2.40 is the independent reference disassembler; the line of a rendering denotes what the reference decodes from the bytes it was rendered from (C01 excluded strings are not used)'])
